@@ -23,9 +23,9 @@ def _complete(k=1):
     return _ACC[k]
 
 
-def _decode_rejects(x, chk):
+def _decode_rejects(x, chk, fast=False):
     """decode on the complete order-1 graph: only the check can reject. Returns 'rejected' | 'accepted' | other."""
-    r = impl.call(dsw.decode, x, 2 * len(x) + 2, _complete(), 0, vt_check=chk)
+    r = impl.call(dsw.decode, x, 2 * len(x) + 2, _complete(), 0, vt_check=chk, is_faster=fast)
     if r["out"] == "ok":
         return "accepted"
     if r["out"] == "exc" and r["type"] == "ValueError":
@@ -48,9 +48,10 @@ def _replay_one(rec):
             bad.append(("decode-rejects-own-check", "accepted", _decode_rejects(s, want)))
         for x in rec["nb"]:
             cnt += 1
-            o = _decode_rejects(impl.dna(x), want)
-            if o != "rejected":
-                bad.append(("decode-accepts-edit", "ValueError", {"neighbour": impl.dna(x), "outcome": o}))
+            for fast in (False, True):
+                o = _decode_rejects(impl.dna(x), want, fast)
+                if o != "rejected":
+                    bad.append(("decode-accepts-edit", "ValueError", {"neighbour": impl.dna(x), "outcome": o, "is_faster": fast}))
     return bad, cnt
 
 
@@ -84,7 +85,7 @@ def record(rng, nstr, maxlen):
             for x in _edits(rng, s):
                 rx = impl.call(dsw.set_vt, impl.dna(x), n)
                 vtx = impl.undna(rx["value"]) if rx["out"] == "ok" and isinstance(rx["value"], str) else [-1]
-                o = _decode_rejects(impl.dna(x), impl.dna(vt))
+                o = _decode_rejects(impl.dna(x), impl.dna(vt), fast=(len(x) % 2 == 1))
                 cases.append({"kind": "edit", "s": s, "n": n, "x": x, "vtx": vtx, "rejected": o == "rejected", "outcome": o})
     return cases
 
